@@ -180,7 +180,8 @@ def run_case(case):
             want_quits = []
             for fi, (inc, pos, action) in enumerate(frames):
                 dt = 0 if fi == 0 else inc
-                if fi + 1 < len(frames) and envx.readings[fi] == 0:
+                if (fi + 1 < len(frames) and fi < len(envx.readings)
+                        and envx.readings[fi] == 0):
                     hits['reading_exactly_zero'] = 1
                 if inc == 0 and fi > 0:
                     hits['zero_increment'] = 1
